@@ -41,6 +41,13 @@ def jobs(tier):
             J.append(Job(b, "three_callers", "1,0,1,0", p1, env, workers=12))
         if not dup:
             J.append(Job(b, "two_readers", "2,0,0,0", p1, env))
+        if b == "gp_qsbr":
+            # callers that are themselves registered, online readers (they must be offline while they wait, leader or not)
+            J.append(Job(b, "merged", "2,0,0,0", dict(p1, upd_registered=1), env))
+            J.append(Job(b, "three_callers", "1,0,0,0", dict(p1, upd_registered=1), env))
+            # a reader that reports a quiescent state and then stays online and idle: that report is the updater's only wake-up
+            J.append(Job(b, "qs_idle", "2,1,0,0", p1, env, workers=8))
+            J.append(Job(b, "qs_idle", "1,1,1,0", p1, env, workers=8))
         if b == "gp_bp":
             J.append(Job(b, "bp_fork_handlers", "2,0,0,0", p1, env))
             J.append(Job(b, "bp_fork_handlers", "1,0,1,0", dict(p1, n=2), env))
